@@ -1,2 +1,64 @@
+/-
+  C02 — random-access AES-CBC reads equal whole-stream decryption; the wrapper never writes.
+  `D` is AES-128 decryption under the keyslot's normal key (a parameter).
+-/
+import Proofs.CbcRefines
+import Proofs.SubRefines
+import Proofs.PyFileRefines
+import Proofs.Run
 namespace Pyctr.C02
+open Pyctr
+variable {σ : Type} {F : FileOps σ} {inv : σ → Prop} {abs : σ → AFile} (D : Bytes → Bytes)
+
+/-- decrypting an aligned window chained from the preceding ciphertext block (the IV at the start) is the
+    corresponding window of the whole-stream plaintext -/
+theorem C02_window (IV c : Bytes) (p0 m : Nat) (hp0 : p0 % 16 = 0) (hm : m % 16 = 0)
+    (hle : p0 + m ≤ c.length) (hIV : IV.length = 16) :
+    cbcDecrypt D (if p0 = 0 then IV else slice c (p0 - 16) 16) (slice c p0 m) =
+      .ok (slice (plainCbc D IV c) p0 m) := cbc_window D IV c p0 m hp0 hm hle hIV
+
+/-- on an ordinary file: every read (inside the first block, starting or ending mid-block, at and past the end)
+    returns the plaintext slice and leaves the position at the end of the data returned -/
+theorem C02_read_spec (s : CbcIO AFile) (n : Int) (hL : s.reader.content.length % 16 = 0) (hIV : s.iv.length = 16) :
+    CbcIO.read AFile.ops D s n =
+      .ok (slice (plainCbc D s.iv s.reader.content) s.reader.pos (s.reader.readLen n),
+           { s with reader := { s.reader with pos := s.reader.pos + s.reader.readLen n } }) :=
+  cbc_read_pure D s n hL hIV
+
+/-- over any readable inner file whose length is a multiple of 16: the wrapper reads/seeks/tells exactly like an
+    ordinary file holding the whole-stream CBC plaintext, and a write raises without effect -/
+theorem C02_cbc_refines (hF : IsReadable F inv abs) :
+    IsReadOnly (CbcIO.ops F D) (CbcIO.invCbc inv abs) (CbcIO.absCbc D abs) := CbcIO.cbc_isReadOnly D hF
+
+/-- the wrapper never writes: a read leaves the inner file's content as it was -/
+theorem C02_no_write (hF : IsReadable F inv abs) (s : CbcIO σ) (n : Int) (h : CbcIO.invCbc inv abs s) :
+    ∃ s', CbcIO.read F D s n = .ok (((CbcIO.absCbc D abs s).read n).1, s') ∧
+      (abs s'.reader).content = (abs s.reader).content := by
+  obtain ⟨s', a, _, _, c⟩ := CbcIO.read_refines D hF s n h; exact ⟨s', a, c⟩
+
+theorem C02_history (hF : IsReadable F inv abs) (ops : List Op) (hro : ∀ op ∈ ops, op.isWrite = false)
+    (s : CbcIO σ) (h : CbcIO.invCbc inv abs s) :
+    ((CbcIO.ops F D).run s ops).1 = (AFile.ops.run (CbcIO.absCbc D abs s) ops).1 :=
+  (isReadable_run (C02_cbc_refines D hF).toIsReadable ops hro s h).1
+
+/-- plain file and windowed sub-file at a non-zero base offset -/
+theorem C02_plain_file :
+    IsReadOnly (CbcIO.ops PyFile.ops D) (CbcIO.invCbc (fun _ => True) PyFile.abs) (CbcIO.absCbc D PyFile.abs) :=
+  C02_cbc_refines D pyfile_isFile.toIsReadable
+
+theorem C02_windowed :
+    IsReadOnly (CbcIO.ops (Sub.ops PyFile.ops) D)
+      (CbcIO.invCbc (Sub.invSub (fun _ => True) PyFile.abs) (Sub.absSub PyFile.abs))
+      (CbcIO.absCbc D (Sub.absSub PyFile.abs)) :=
+  C02_cbc_refines D (Sub.sub_isReadable pyfile_isFile.toIsReadable)
+
+/-- non-vacuity: reads inside block 0, starting mid-block of block 2, ending mid-block, and past the end -/
+example :
+    let D : Bytes → Bytes := fun b => b.map (· + 3)
+    let iv : Bytes := List.replicate 16 7
+    let ct : Bytes := (List.range 48).map UInt8.ofNat
+    ((CbcIO.ops PyFile.ops D).run ⟨⟨ct, 0⟩, iv⟩ [.read 5, .seek 37 0, .read 4, .seek 60 0, .read 4, .tell]).1 =
+      [.bytes (slice (plainCbc D iv ct) 0 5), .nat 37, .bytes (slice (plainCbc D iv ct) 37 4), .nat 60, .bytes [],
+       .nat 60] := by decide
+
 end Pyctr.C02
